@@ -126,6 +126,8 @@ pub fn programs() -> Vec<&'static str> {
         "aux. out(X) :- in(X), aux.",
         "out(X) :- in(X), not aux.",
         "out(X) :- in(X), X > 0, not aux(X). aux(X) :- in(X), X > 1.",
+        "out(X) :- in(X), not in2(X).",
+        "out(X) :- in(X), in2(X). out(X) :- in(X), not in2(X).",
     ]
 }
 
@@ -137,6 +139,8 @@ pub fn user_guides() -> Vec<&'static str> {
         "input: in/1. output: out/1. assumption: forall X (in(X) -> X > 0).",
         "input: in/1. output: out/1. input: n -> integer. assumption: forall X (in(X) -> X <= n).",
         "input: in/1. output: out/1. input: n -> symbol.",
+        "input: in/1. input: in2/1. output: out/1.",
+        "input: in/1. input: in2/1. output: out/1. assumption: forall X (in2(X) -> in(X)).",
     ]
 }
 
@@ -167,7 +171,15 @@ pub fn ext_tasks(quick: bool) -> Vec<ExtTask> {
                 if !uses_n && (k == 1 || k == 2 || k == 4 || k == 5) {
                     continue;
                 }
-                if quick && (i + 2 * j + k) % 3 != 0 {
+                // the guides with a second input predicate: only where a side mentions it, plus a stride
+                let uses_in2 = l.contains("in2") || r.contains("in2");
+                if (k == 6 || k == 7) && !uses_in2 && (i + j) % 7 != 0 {
+                    continue;
+                }
+                if uses_in2 && k < 6 {
+                    continue;
+                }
+                if quick && !uses_in2 && (i + 2 * j + k) % 3 != 0 {
                     continue;
                 }
                 out.push(ExtTask { left: l.to_string(), left_is_spec: false, right: r.to_string(), ug: ug.to_string(), po: String::new() });
@@ -179,6 +191,13 @@ pub fn ext_tasks(quick: bool) -> Vec<ExtTask> {
             for (k, ug) in ugs.iter().enumerate() {
                 let uses_n = s.contains(" n") || r.contains(" n") || r.contains("..n");
                 if !uses_n && (k == 1 || k == 2 || k == 4 || k == 5) {
+                    continue;
+                }
+                let uses_in2 = r.contains("in2");
+                if (k == 6 || k == 7) && !uses_in2 && (i + j) % 5 != 0 {
+                    continue;
+                }
+                if uses_in2 && k < 6 {
                     continue;
                 }
                 if quick && (i + j + k) % 2 != 0 {
